@@ -281,7 +281,11 @@ theorem runNodes_append (avIndex : Nat → Nat) :
   | cons m pre ih =>
     intro rest st si
     simp only [List.cons_append]
-    unfold runNodes
+    have e1 : ∀ l, runNodes avIndex st si (m :: l) =
+        match stepNode avIndex st si m with
+        | .error e => .error e
+        | .ok st' => runNodes avIndex st' (si + 1) l := fun l => by rw [runNodes]; rfl
+    rw [e1 (pre ++ rest), e1 pre]
     cases hs : stepNode avIndex st si m with
     | error e => rfl
     | ok st2 =>
